@@ -90,8 +90,24 @@ def step (d : DState) (opLine : String) (impl : String) : DState × StepOut :=
         | _ => (d.sfx, "ok")
       -- monitor: the table the implementation shows
       let t := parseTable ((impl.splitOn " ").getLast?.getD "[]")
-      let fails := tableFails PdModel.Generated.TsoGlobal.maxSuffixBits d.mon.table t
-      ({ d with sfx := s', mon := { d.mon with table := t } }, { model := s!"{out} {tableStr s'.table}", fails := fails })
+      -- after a completed checker the harness also reports the suffix width that member now stamps on its
+      -- timestamps and the dc-locations that have a server: the width must hold every suffix in use
+      let tok := (words impl).find? (·.startsWith "bits=")
+      let widthFails : List String :=
+        match tok with
+        | some tk =>
+          match (tk.drop 5).toString.splitOn ";" with
+          | [b, dcs] =>
+            (dcs.splitOn ",").filterMap (fun dc =>
+              if dc.isEmpty then none else
+              let sfx := sfxOf t (natArg dc)
+              if sfx < 2 ^ natArg b then none
+              else some s!"sig=C05.suffix-width-too-small bits={b} dc={dc} suffix={sfx}")
+          | _ => []
+        | none => []
+      let out' := match tok with | some tk => s!"{out} {tk}" | none => out
+      let fails := tableFails PdModel.Generated.TsoGlobal.maxSuffixBits d.mon.table t ++ widthFails
+      ({ d with sfx := s', mon := { d.mon with table := t } }, { model := s!"{out'} {tableStr s'.table}", fails := fails })
     -- protocol ---------------------------------------------------------------------------------
     else match ws with
     | "pinit" :: _ =>
